@@ -23,15 +23,19 @@ def _xdiag(d):
 
 
 _WHY = {
-    1: "y is NaN: the generic closure panics in bisectBool (model: IPanic); the call did not panic",
+    1: "y is NaN (nothing is demanded; not reported)",
     2: "expected NaN (y outside [0,1])",
     3: "special value y=0 / y=1: expected exactly the value below (Bounds end point if CDF is exactly 0/1 there, else -Inf/+Inf)",
     4: "call panicked or returned a non-finite value; expected the quantile below",
-    5: "result is not within 1e-9|x*| + 1e-9 max|break point| + 2e-16 of the exact quantile x* below",
+    5: "result is not within 1e-9|x*| (+ 2^-50 W/H for the harness's own rounding on a ramp of width W, height H) of the exact quantile x* below",
     6: "CDF(result) < y: the result is not an upper end (smallest x with CDF(x) >= y is x* below)",
     7: "result outside the pair [x1, x2] reached by the model bisection after 12 halvings",
     8: "dispatch: stats.InvCDF(d)(y) and d.InvCDF(y) differ (status, generic bits, method bits)",
-    9: "dispatch: stats.Rand(d)(r) and the method's draw differ (generic bits, method bits)",
+    9: "stats.Rand(d)(r) differs from the reference generator (own Rand method, or InvCDF(d) at the first non-zero source value) for equally seeded sources (observed bits, reference bits)",
+    10: "relational: CDF(x) < y at the returned x (own method: CDF(x + 1e-9|x|) < y - 1e-12); CDF value below",
+    11: "relational: CDF(x - 1e-9|x|) >= y: the returned x is not the smallest point with CDF >= y; CDF(x - tol) below",
+    12: "infinite result for 0 < y < 1: expected exactly when the bracket expansion overflows (quantile beyond 2^1023 / at or below -2^1023); [neg, expected quantile or CDF at the last finite probe]",
+    13: "not non-decreasing in y: the results at the two level indices below are in the wrong order",
 }
 
 
@@ -41,14 +45,9 @@ def describe(line, verdict, case):
     diag = verdict[3:]
     bits = {1: "bisection", 2: "special", 4: "nan-range", 8: "right", 16: "left", 32: "far", 64: "jump", 128: "flat-level",
             256: "ramp", 512: "discrete", 1024: "dispatch", 2048: "rand", 4096: "zeros-skipped", 8192: "inf-at-end",
-            16384: "nan-arg-panic", 32768: "exact-level", 65536: "borderline", 131072: "ks"}
+            16384: "nan-arg", 32768: "exact-level", 65536: "borderline", 131072: "ks", 262144: "relational", 524288: "overflow"}
     out["branches"] = [n for b, n in sorted(bits.items()) if tag & b]
     if code in (0, 1):
-        return out
-    if code == 10:
-        out["signature"] = "xtol-limited accuracy near 0: the result is within 2e-16 of the quantile absolutely, but not within 1e-9 relative (bisectBool xtol = 1e-16, dist.go:124)"
-        if len(diag) >= 2:
-            out["expected_quantile"] = _q(diag[0], diag[1])
         return out
     op = line[1]
     try:
@@ -71,6 +70,11 @@ def describe(line, verdict, case):
                     out["expected"] = _xdiag(diag[1:])
                 elif diag and diag[0] == 7 and len(diag) >= 5:
                     out["model_pair"] = [_q(diag[1], diag[2]), _q(diag[3], diag[4])]
+                elif diag and diag[0] == 12 and len(diag) >= 4:
+                    out["expected"] = "-Inf" if diag[1] else "+Inf"
+                    out["exact_quantile"] = _q(diag[2], diag[3])
+                elif diag and diag[0] == 13 and len(diag) >= 3:
+                    out["level_indices"] = diag[1:3]
             else:
                 if diag and diag[0] in (4, 5) and len(diag) >= 4:
                     out["why"] = "expected the support point k (any of k1..k2 when y is within 1e-9 of a cumulative level), returned as a float >= k within 1e-9"
@@ -89,6 +93,40 @@ def describe(line, verdict, case):
                           "draw != InvCDF(dist)(y) bit for bit (status, draw bits, inv bits)",
                           "InvCDF(dist)(y) itself is wrong: " + (_WHY.get(diag[0], "?") if diag else "?")][pos] if 0 <= pos <= 4 else "?"
             out["diag"] = diag
+        elif op in (6, 7):
+            kinds = ["TDist", "UDist", "KDE", "BinomialDist", "HypergeometicDist", "NormalDist", "DeltaDist", "harness geometric (DiscreteDist)", "harness Poisson (DiscreteDist)", "harness atom + exponential tail", "harness power law"]
+            out["distribution"] = kinds[line[2]] if 0 <= line[2] < len(kinds) else line[2]
+            out["own_invcdf_method"], out["own_rand_method"] = bool(line[4] & 1), bool(line[4] & 2)
+            if op == 7 and 0 <= pos <= 3:
+                out["why"] = ["Rand panicked", "number of source values consumed (expected, observed)",
+                              "y reported by the harness is not the first non-zero source value / 2^63",
+                              "draw != InvCDF(dist)(y) bit for bit (status, draw bits, inv bits)"][pos]
+                out["diag"] = diag
+            elif op == 6 and pos >= 1000:
+                out["why"] = _WHY[9]
+                out["values"] = [_f(b) for b in diag[1:]]
+            else:
+                out["why"] = _WHY.get(diag[0], "?") if diag else "?"
+                if diag and diag[0] == 8 and len(diag) >= 5:
+                    out["why"] = ("InvCDF(d)(y) is not bit-identical to " + ("the distribution's own method" if line[4] & 1 else
+                                  "the generic algorithm run through a bare CDF/Bounds wrapper") + " (status, result bits, reference status/bits)")
+                    out["result"], out["reference"] = _f(diag[2]), _f(diag[3])
+                elif diag and diag[0] in (10, 11) and len(diag) >= 3:
+                    out["cdf_value"] = _q(diag[1], diag[2])
+                elif diag and diag[0] == 3:
+                    out["expected"] = _xdiag(diag[1:])
+                if op == 6:
+                    base = 11
+                    items = line[base + 1:]
+                    if 0 <= pos and 10 * pos + 10 <= len(items):
+                        it = items[10 * pos: 10 * pos + 10]
+                        out["failing_level"] = {"index": pos, "y": _f(it[0]), "status": it[1], "x": _f(it[2]), "CDF(x)": _f(it[4]),
+                                                "x-tol": _f(it[3]), "CDF(x-tol)": _f(it[5])}
+        elif op == 8:
+            out["why"] = ["Rand panicked", "Kolmogorov-Smirnov distance (computed by the comparator against the exact cdf) exceeds the DKW bound for false-alarm probability 1e-9",
+                          "a draw is not a finite number"][pos] if 0 <= pos <= 2 else "?"
+            if pos == 1 and len(diag) >= 2:
+                out["D"] = _q(diag[0], diag[1])
         elif op == 5:
             out["why"] = "Kolmogorov-Smirnov distance of the draws exceeds the DKW bound for false-alarm probability 1e-9"
             if len(diag) >= 3:
